@@ -136,6 +136,11 @@ func specMerge(c specCol, cur, delta []byte) []byte {
 			return append(append([]byte(nil), cur...), delta...)
 		case "keep":
 			return cur
+		case "tail":
+			if len(delta) > 2 {
+				return append([]byte(nil), delta[len(delta)-2:]...)
+			}
+			return append(append([]byte(nil), cur...), delta...)
 		}
 		return delta
 	case c.kind == "record":
